@@ -601,7 +601,7 @@ class CntField(RawField):
 
     def size(self, psize=0):
         try:
-            return struct.calcsize(self.format(psize))
+            return struct.calcsize(self.order + self.format(psize))
         except Exception:
             return float("Infinity")
 
@@ -634,16 +634,23 @@ class CntField(RawField):
             return None
         return res[1:]
 
+    def _pack_args(self, value):
+        # the arguments of struct.pack for the elements of value:
+        if value is None or len(value)==0:
+            return []
+        if self.typename == "s":
+            return [value]
+        if isinstance(value,bytes):
+            # joined 'c' elements
+            return [value[i:i+1] for i in range(len(value))]
+        return list(value)
+
     def pack(self, value, psize=0):
         if not hasattr(self,"fcount"):
             self.fcount = self.count
-        self.count = len(value)
-        if isinstance(value,list):
-            res = struct.pack(self.order + self.format(psize),
-                              self.count, *value)
-        else:
-            res = struct.pack(self.order + self.format(psize),
-                              self.count, value)
+        self.count = 0 if value is None else len(value)
+        res = struct.pack(self.order + self.format(psize),
+                          self.count, *self._pack_args(value))
         return res
 
     def __repr__(self):
@@ -676,7 +683,7 @@ class BindedField(CntField):
 
     def size(self, psize=0):
         try:
-            return struct.calcsize(self.format(psize))
+            return struct.calcsize(self.order + self.format(psize))
         except Exception:
             return float("Infinity")
 
@@ -695,3 +702,10 @@ class BindedField(CntField):
             return res[0]
         return res
 
+    def pack(self, value, psize=0):
+        if not hasattr(self,"fcount"):
+            self.fcount = self.count
+        self.count = 0 if value is None else len(value)
+        res = struct.pack(self.order + self.format(psize),
+                          *self._pack_args(value))
+        return res
